@@ -945,7 +945,8 @@ func cutTextPref(text string, runs [][2]int, r *rng, baseDir string, maxDepth in
 			// a file in the directory of its includer may get the includer's name in the other letter
 			// case (Part3.jst includes part3.jst): two different files on a case-sensitive disk
 			srcKey := strings.Join(lines[c.from:c.to], "\n")
-			prefix := []string{"part", "part", "part", "Part", "PART", "..part", "p.art", "...", "part"}[hash64(srcKey)%9]
+			prefix := []string{"part", "part", "part", "Part", "PART", "..part", "p.art", "...", "part",
+				"p\u00e4rt", "\u0447\u0430\u0441\u0442\u044c", "p+art", "p%20art", "p~art", "p@art", "p-a_r,t", "part" + strings.Repeat("x", 150), "part"}[hash64(srcKey)%18]
 			if sub != "" && strings.HasPrefix(prefix, "..") {
 				// after a directory the library's validator refuses "/.." even inside a longer name;
 				// that conservatism is not what this check is about
